@@ -253,8 +253,14 @@ def run(prog: Program, rep: Report, tier: str):
         "        leading_cond_shape = condition.shape[: -self.cond_ndim or None]\n",
         "        leading_cond_shape = condition.shape if self.cond_ndim == 0 else condition.shape[: -self.cond_ndim]\n"),
         [KEY, SS, CONDS])
+    # ... or as a count of leading axes: shape[: max(len(shape) - n, 0)] (n = 0 keeps all, n > len keeps none, like -n or None)
+    alts_n = []
+    for ln in ("len(condition.shape)", "condition.ndim", "jnp.ndim(condition)"):
+        for form in (f"max({ln} - self.cond_ndim, 0)", f"max(0, {ln} - self.cond_ndim)"):
+            alts_n.append(eval_ref_method(prog, c, KEYS_REF.replace(
+                "condition.shape[: -self.cond_ndim or None]", f"condition.shape[: {form}]"), [KEY, SS, CONDS]))
     compare(rep, "C06.keys", method_site(prog, c, "_get_sample_keys"), "AbstractDistribution._get_sample_keys", got, want, "keys",
-            alternatives=(alt, alt2, alt3))
+            alternatives=(alt, alt2, alt3, *alts_n))
     got = Interp(prog).eval_method(c, "cond_ndim", [])
     want = eval_ref_method(prog, c, "def cond_ndim(self):\n    return None if self.cond_shape is None else len(self.cond_shape)\n", [])
     compare(rep, "C06.keys", method_site(prog, c, "cond_ndim"), "AbstractDistribution.cond_ndim", got, want, "cond_ndim")
